@@ -102,6 +102,10 @@ def parse_passes(block):
                 cur["corr"].append(p[2:])
             elif p[1] == "det":
                 cur["det"] = complex(float(p[2]), float(p[3]))
+            elif p[1] == "qrarray":
+                cur["qrarray"] = (int(p[2]), int(p[3]), _cvals(p[4:]))
+            elif p[1] == "qmat":
+                cur["qmat"] = (int(p[2]), _cvals(p[3:]))
         elif p[0] == "wb" and cur is not None:
             if p[1] == "pstart":
                 if "d" in cur["mats"] and cur["newp"] is None:
@@ -332,7 +336,44 @@ def part_kernel_tie(ctx, rec, wb, drv, ncases):
             if "dims" not in ps or "x" not in ps["mats"]:
                 continue
             jobs.append((sc, i, ps, kpass_line(ps)))
-    rc, mlines, merr = run_driver(drv, [j[3] for j in jobs], 900)
+    # the Q-forming loop of _vnacommon_qr and the Q2^H accumulation (AutoKernelQrQ.v): the model's Q from
+    # the array _vnacommon_qrd left (a rational function of it) against the C matrix, and q2h of it on
+    # b_vector against the upper rows of k_vector; one-port calibrations (m x m exact arithmetic)
+    qjobs = []
+    for sc, i, ps, _ in jobs:
+        if sc.n == 1 and i == 0 and "qrarray" in ps and "qmat" in ps and "k" in ps["mats"] and len(qjobs) < 3:
+            m_, n_, arr = ps["qrarray"]
+            qjobs.append((sc, ps, "formq %d %d %s %s" % (m_, n_, " ".join(cq(z) for z in arr),
+                                                          " ".join(cq(z) for z in ps["mats"]["b"]))))
+    rc, mlines, merr = run_driver(drv, [j[3] for j in jobs] + [j[2] for j in qjobs], 900)
+    qlines = mlines[len(jobs):]
+    mlines = mlines[:len(jobs)]
+    qbad = None
+    nq = 0
+    if rc == 0 and all(x is not None and x.startswith("formq") for x in qlines):
+        for (sc, ps, _), ql in zip(qjobs, qlines):
+            t = ql.split()
+            kpos = t.index("k")
+            q_m, k_m = qvals(t[2:kpos]), qvals(t[kpos + 1:])
+            m_, q_c = ps["qmat"]
+            n_ = ps["qrarray"][1]
+            bq = first_diff(q_m, q_c, 1e-12)
+            # q2h is evaluated on the model's Q: it agrees with the C Q to 1e-12, b is O(1)
+            bkk = first_diff(k_m, ps["mats"]["k"][:m_ - n_], 1e-11 * max([abs(z) for z in ps["mats"]["b"]] + [1.0]))
+            nq += 1
+            if bq:
+                qbad = (sc, "Q of _vnacommon_qr [%d]: model %r, C %r" % bq)
+            elif bkk:
+                qbad = (sc, "k_vector[%d] = (Q2^H b): model %r, C %r" % bkk)
+            if qbad:
+                break
+    else:
+        qbad = (None, "driver (formq) rc=%d %s" % (rc, merr[-200:]))
+    ctx.obligation("tie:qr_formq_and_q2h_vs_AutoKernelQrQ", qbad is None and nq > 0,
+                   "" if qbad is None else ("%s: %s" % (qbad[0].sid if qbad[0] else "-", qbad[1])))
+    if qbad is not None and qbad[0] is not None:
+        rec.add({"kind": "disagreement", "op": "_vnacommon_qr", "class": "Q matrix / Q2^H product"},
+                "AutoKernelQrQ model and the code disagree: %s: %s" % (qbad[0].sid, qbad[1]), qbad[0], None)
     if rc != 0 or any(x is None or not x.startswith("kpass") for x in mlines):
         ctx.obligation("tie:lm_kernel_pass_vs_AutoKernelModel", False,
                        "driver rc=%d lines=%d jobs=%d %s" % (rc, len(mlines), len(jobs), merr[-200:]))
